@@ -489,6 +489,9 @@ def manual_counter_rule(ctx, chk, rule="C08.6", modules=("roberta_generator.py",
 
 
 def run(ctx, chk):
+    shared.rule_no_complement_keys(ctx, chk, "C08.0:keys", shared.GENERATOR_MODULES)
+    shared.rule_no_module_level_iterators(ctx, chk, "C08.0:iter", shared.GENERATOR_MODULES)      # a one-shot iterator at module level is used up by the first file
+    shared.rule_single_use_iterators(ctx, chk, "C08.0:iter", shared.GENERATOR_MODULES)
     shared.rule_no_module_state(ctx, chk, "C08.0:state", [ctx.func("roberta_generator.py::write_robots")] + [f_ for f_ in ctx.prog.all_funcs(("stochastic_game_from_roborta_board.py",)) if f_.name == "create_sg_from_board"], "a game file is written")
     shared.rule_mutable_defaults(ctx, chk, "C08.0:defaults", shared.GENERATOR_MODULES)      # a call must not depend on the calls made before it
     manual_counter_rule(ctx, chk)
